@@ -16,6 +16,31 @@ thread_local! {
     static PEAK: Cell<usize> = const { Cell::new(0) };
     static MAXREQ: Cell<usize> = const { Cell::new(0) };
     static NCALLS: Cell<usize> = const { Cell::new(0) };
+    /// Requests of at least this many bytes made on this thread fail (null), as an exhausted heap would.
+    static FAIL_FROM: Cell<usize> = const { Cell::new(usize::MAX) };
+    static FAILED: Cell<usize> = const { Cell::new(0) };
+}
+#[inline]
+fn must_fail(size: usize) -> bool {
+    FAIL_FROM
+        .try_with(|f| {
+            if size >= f.get() {
+                let _ = FAILED.try_with(|n| n.set(n.get() + 1));
+                true
+            } else {
+                false
+            }
+        })
+        .unwrap_or(false)
+}
+/// Runs `f` while every allocation request of `from` bytes or more made on this thread fails.
+/// Returns the result and the number of requests refused.
+pub fn with_failing_allocations<T>(from: usize, f: impl FnOnce() -> T) -> (T, usize) {
+    FAILED.with(|n| n.set(0));
+    FAIL_FROM.with(|c| c.set(from));
+    let r = f();
+    FAIL_FROM.with(|c| c.set(usize::MAX));
+    (r, FAILED.with(|n| n.get()))
 }
 
 #[inline]
@@ -51,6 +76,9 @@ fn note_free(size: usize) {
 
 unsafe impl GlobalAlloc for CountingAlloc {
     unsafe fn alloc(&self, layout: Layout) -> *mut u8 {
+        if must_fail(layout.size()) {
+            return std::ptr::null_mut();
+        }
         note_alloc(layout.size());
         if layout.size() >= BIG {
             let p = libc::mmap(
@@ -77,6 +105,9 @@ unsafe impl GlobalAlloc for CountingAlloc {
         System.dealloc(ptr, layout)
     }
     unsafe fn realloc(&self, ptr: *mut u8, layout: Layout, new_size: usize) -> *mut u8 {
+        if new_size > layout.size() && must_fail(new_size) {
+            return std::ptr::null_mut();
+        }
         if layout.size() < BIG && new_size < BIG {
             note_free(layout.size());
             note_alloc(new_size);
